@@ -50,7 +50,7 @@ def main():
                      cwd=repo, env=env)
         last = [l for l in log.strip().splitlines() if "passed" in l or "failed" in l][-1:]
         out["test_suite"] = last[0] if last else log[-200:]
-        out["tests_pass"] = bool(last) and "1008 passed" in last[0] and "failed" not in last[0]
+        out["tests_pass"] = bool(last) and "1008 passed" in last[0] and not re.search(r"\b\d+ failed", last[0])
         rc, log = sh("/venv/bin/python -W ignore _seed/demo.py", cwd=repo, env=env, timeout=600)
         out["demo_with_change"] = rc
         out["demo_tail"] = log[-300:]
